@@ -78,6 +78,22 @@ class Evaluate(SxContract):
             for k in range(1, self.K):
                 P[0, k] = eps * ts[k - 1]
             P[0, 0] = 1 - sum((eps * t for t in ts[1:]), eps * ts[0])
+        self.mixed = None
+        if self.structure == "clipped-mixed" and self.K >= 3:
+            # row 0 mixes a clipped entry with interior ones: P[0,0] = eps*t (beyond the bound), P[0,1] = q free, P[0,K-1] = 1 - q - eps*t - ...;
+            # the chain rule through the RETURNED gradient must give the derivative of the returned score along t and q as well
+            # (a per-row constant missing from the gradient cancels only when every entry of the row carries a gradient)
+            P = P.copy()
+            t = ctx.var("t_0", "+", lo=0.05, hi=0.9)
+            ctx.assume(1 - t, "+")
+            P[0, 0] = eps * t
+            rest = P[0, 1]
+            for k in range(2, self.K - 1):
+                rest = rest + P[0, k]
+            P[0, self.K - 1] = 1 - eps * t - rest
+            ctx.assume(P[0, self.K - 1] - eps, "+")
+            ctx.assume(1 - eps - P[0, self.K - 1], "+")
+            self.mixed = ["t_0"] + [f"p_0_{k}" for k in range(1, self.K - 1)]
         A = sx.sym_symmetric(ctx, "a", self.n, lo=-1.0, hi=2.0) if self.needA else None
         self.g = getattr(G, self.cls)(ovo=self.ovo)
         self.g.epsilon = eps          # symbolic clipping precision (the default 1e-12 is one instance)
@@ -115,7 +131,14 @@ class Evaluate(SxContract):
         if getattr(grad, "shape", None) != P.shape:
             return
         sn = sx.lift(out["score_g"])
-        rows = range(1, n) if self.structure in ("clipped", "clipped-sym") else range(n)
+        rows = range(1, n) if self.structure in ("clipped", "clipped-sym", "clipped-mixed") else range(n)
+        if self.mixed:
+            yield "clipped-grad[0,0]==0", prove.eq(grad[0, 0], 0)
+            for v in self.mixed:
+                chain = dag.ZERO
+                for k in range(K):
+                    chain = dag.add(chain, dag.mul(sx.lift(grad[0, k]), dag.diff(sx.lift(P[0, k]), v, {})))
+                yield f"row with a clipped entry: d score / d {v} == sum_k grad[0,k] * dP[0,k]/d{v}", prove.eq(dag.diff(sn, v, {}), chain, smooth_only=True)
         for i in rows:
             for k in range(K - 1):
                 lhs = dag.diff(sn, f"p_{i}_{k}", {})
